@@ -432,6 +432,24 @@ class DamageScenario(BaseScenario):
             problems.append(f"unknown entity {extra[0]} appeared")
         if problems:
             raise Violation("C19", "unrelated_entity_altered", f"deleting {cls} {where}: {problems[0]} (+{len(problems) - 1} more)", tag_ctx)
+        if item["ctx"] in ("pg", "pg_attr"):
+            # an item of ONE property group describes that group: the object's other groups, and the rest of the object, stay
+            owner = item.get("owner")
+            pg_uid = item["name"] if item["ctx"] == "pg" else item["path"].rsplit("/", 1)[-1]
+            got = records.get(owner)
+            if owner in intact and got is not None:
+                sim.oracle("sibling_groups_kept")
+                want_pgs = {k: v for k, v in (intact[owner].get("pgs") or {}).items() if k != pg_uid}
+                got_pgs = {k: v for k, v in (got.get("pgs") or {}).items() if k != pg_uid}
+                # (the described group itself may be missing, defaulted, or listed under another identifier)
+                extra = set(got_pgs) - set(want_pgs)
+                if len(extra) > 1 or not compare.same(want_pgs, {k: v for k, v in got_pgs.items() if k in want_pgs}):
+                    lost = sorted(set(want_pgs) - set(got_pgs))
+                    raise Violation("C19", "unrelated_entity_altered", f"deleting {cls} {where}: the object's OTHER property groups changed "
+                                    f"(lost {lost}; intact {sorted(want_pgs)}, damaged {sorted(got_pgs)})", {**tag_ctx, "what": "sibling_pg"})
+                rest = [d for d in compare.diff_record({**intact[owner], "pgs": {}}, {**got, "pgs": {}}, "INTACT", "DAMAGED")]
+                if rest:
+                    raise Violation("C19", "unrelated_entity_altered", f"deleting {cls} {where}: {rest[0]}", {**tag_ctx, "what": "owner_rest"})
         if cls == "optional":
             # the owner itself differs at most in the deleted attribute
             owner = item.get("owner")
